@@ -1,0 +1,11 @@
+//go:build verif
+
+package types
+
+// Contracts for package types, checked by /verif/govc (contract-based deductive
+// verification). Comments only; compiled only under the build tag "verif".
+
+//@ func ToString
+//@   inline
+//@ func StringValue
+//@   inline
